@@ -30,10 +30,13 @@ MUTATIONS = [
      '                        _buffer = None\n                        _size = 0', '                        _size = 0'),
     # ---- C07
     ('c07-allow-half-grid', 'C07', 'abacusnbody/analysis/tsc.py',
-     'if npartition > 1 and npartition > n1d // 3 and nthread > 1:',
-     'if npartition > 1 and npartition > n1d // 3 and npartition != n1d // 2 and nthread > 1:'),
+     'if npartition > 1 and 3 * npartition >= n1d and nthread > 1:',
+     'if npartition > 1 and 3 * npartition >= n1d and npartition != n1d // 2 and nthread > 1:'),
     ('c07-default-too-fine', 'C07', 'abacusnbody/analysis/tsc.py',
-     'npartition = min(n1d // 3, 2 * nthread)', 'npartition = min(n1d // 2, 2 * nthread)'),
+     'npartition = min((n1d - 1) // 3, 2 * nthread)', 'npartition = min(n1d // 2, 2 * nthread)'),
+    ('c07-three-cell-stripes', 'C07', 'abacusnbody/analysis/tsc.py',
+     ['npartition = min((n1d - 1) // 3, 2 * nthread)', 'if npartition > 1 and 3 * npartition >= n1d and nthread > 1:'],
+     ['npartition = min(n1d // 3, 2 * nthread)', 'if npartition > 1 and 3 * npartition > n1d and nthread > 1:']),
     ('c07-odd-pass-count', 'C07', 'abacusnbody/analysis/tsc.py',
      'for i in numba.prange(npartition // 2):', 'for i in numba.prange((npartition + 1) // 2):'),
     ('c07-odd-pass-wrong-slice', 'C07', 'abacusnbody/analysis/tsc.py',
@@ -49,7 +52,7 @@ MUTATIONS = [
     ('c03-no-truncation', 'C03', 'abacusnbody/data/compaso_halo_catalog.py', '        self.halos = self.halos[:N_written]\n', ''),
     ('c03-duplicates-allowed', 'C03', 'abacusnbody/data/compaso_halo_catalog.py', '                    if p == q:\n                        raise ValueError(', '                    if False:\n                        raise ValueError('),
     ('c03-mixed-allowed', 'C03', 'abacusnbody/data/compaso_halo_catalog.py', "                if not groupdir == p.parents[1] and not halo_lc:\n                    raise ValueError(\"Can't mix files from different catalogs!\")", "                if False:\n                    raise ValueError(\"Can't mix files from different catalogs!\")"),
-    ('c03-filter-sees-raw-N', 'C03', 'abacusnbody/data/compaso_halo_catalog.py', "                if self.cleaned and not passthrough:\n                    halos.rename_column('N_total', 'N')\n\n                mask = self.filter_func(halos)", "                if self.cleaned and not passthrough:\n                    halos['N'] = rawhalos['N_total'] * 0 + 10**6 if 'N_total' in rawhalos.colnames else 0\n\n                mask = self.filter_func(halos)"),
+    ('c03-filter-sees-raw-N', 'C03', 'abacusnbody/data/compaso_halo_catalog.py', "                if self.cleaned and not passthrough and 'N_total' in halos.colnames:\n                    halos.rename_column('N_total', 'N')\n\n                mask = self.filter_func(halos)", "                if self.cleaned and not passthrough and 'N_total' in halos.colnames:\n                    halos['N'] = rawhalos['N_total'] * 0 + 10**6 if 'N_total' in rawhalos.colnames else 0\n\n                mask = self.filter_func(halos)"),
     ('c03-compaction-offset', 'C03', 'abacusnbody/data/compaso_halo_catalog.py', '                halos[:nmask] = halos[mask]', '                halos[:nmask] = halos[mask][::-1] if nmask == 2 else halos[mask]'),
     ('c03-file-order-sorted', 'C03', 'abacusnbody/data/compaso_halo_catalog.py', '                halo_fns = path  # path is list of one or more files', '                halo_fns = sorted(path)  # path is list of one or more files'),
     # ---- C05
@@ -106,10 +109,10 @@ MUTATIONS = [
     ('c13-second-field-uncompensated', 'C13', 'abacusnbody/analysis/power_spectrum.py',
      '            w2,\n            W,\n            compensated,\n            interlaced,', '            w2,\n            W,\n            False,\n            interlaced,'),
     ('c13-narrow-stripes', 'C13', 'abacusnbody/analysis/tsc.py',
-     ['if npartition > 1 and npartition > n1d // 3 and nthread > 1:', 'npartition = min(n1d // 3, 2 * nthread)'],
+     ['if npartition > 1 and 3 * npartition >= n1d and nthread > 1:', 'npartition = min((n1d - 1) // 3, 2 * nthread)'],
      ['if npartition > 1 and npartition > n1d // 2 and nthread > 1:', 'npartition = min(n1d // 2, 2 * nthread)']),
     ('c13-narrow-default', 'C13', 'abacusnbody/analysis/tsc.py',
-     'npartition = min(n1d // 3, 2 * nthread)', 'npartition = min(n1d // 2, 2 * nthread)'),
+     'npartition = min((n1d - 1) // 3, 2 * nthread)', 'npartition = min(n1d // 2, 2 * nthread)'),
     # ---- C09
     ('c09-elg-not-stacked', 'C09', 'abacusnbody/hod/GRAND_HOD.py', '            ELG_marker = LRG_marker\n            if want_ELG:\n                logM_cut_E_temp = (\n                    logM_cut_E + Ac_E * deltac[i]',
      '            ELG_marker = 0\n            if want_ELG:\n                logM_cut_E_temp = (\n                    logM_cut_E + Ac_E * deltac[i]'),
